@@ -8,6 +8,7 @@
 #include <string>
 
 #include "Strings.hh"
+#include "common.hh"
 
 static void fail(const char* what) {
   fprintf(stderr, "C09-FUZZ-INVARIANT %s\n", what);
@@ -20,7 +21,9 @@ extern "C" int LLVMFuzzerTestOneInput(const uint8_t* data, size_t size) {
   std::string mask = "junk";
   std::string out, out2;
   try {
+    vf::poison_errno();
     out = phosg::parse_data_string(*s, &mask);
+    vf::poison_errno();
     out2 = phosg::parse_data_string(*s);
   } catch (const std::exception& e) {
     fprintf(stderr, "exception: %s\n", e.what());
